@@ -115,32 +115,18 @@ def allPairs (n : Nat) : List (Nat × Nat) := (List.range' 0 n).flatMap rowPairs
 
 theorem lib_unfold (n : Nat) (w : Nat → Nat → Int) (f : Nat → WriteResult) :
     lib n w f =
-      match write f ⟨0, []⟩ hdr1 with
-      | (s1, _, some e) => Res.of s1 (some e) []
-      | (s1, _, none) =>
-      match write f s1 (hdr2 n) with
-      | (s2, _, some e) => Res.of s2 (some e) []
-      | (s2, _, none) =>
-      match write f s2 hdr3 with
-      | (s3, _, some e) => Res.of s3 (some e) []
-      | (s3, _, none) =>
+      match writeAll f ⟨0, []⟩ (hdrWrites n) with
+      | (s3, some e) => Res.of s3 (some e) []
+      | (s3, none) =>
       match writeAll0 f s3 (body n w) with
       | (s4, some e) => Res.of s4 (some e) (allPairs n)
       | (s4, none) =>
-      match write f s4 trailer with
-      | (s5, _, some e) => Res.of s5 (some e) (allPairs n)
-      | (s5, _, none) => Res.of s5 none (allPairs n) := by
+      match writeAll f s4 trailerWrites with
+      | (s5, some e) => Res.of s5 (some e) (allPairs n)
+      | (s5, none) => Res.of s5 none (allPairs n) := by
   simp only [lib, TW.new, rows_eq, twFlush, TW.flushChunks, TW.lines, List.nil_append, body, triLines, allPairs,
     List.length_nil, Nat.lt_irrefl, if_false]
-  rcases write f ⟨0, []⟩ hdr1 with ⟨s1, n1, _ | e1⟩
-  rotate_left
-  · rfl
-  dsimp only
-  rcases write f s1 (hdr2 n) with ⟨s2, n2, _ | e2⟩
-  rotate_left
-  · rfl
-  dsimp only
-  rcases write f s2 hdr3 with ⟨s3, n3, _ | e3⟩
+  rcases writeAll f ⟨0, []⟩ (hdrWrites n) with ⟨s3, _ | e3⟩
   rotate_left
   · rfl
   dsimp only
@@ -218,50 +204,87 @@ theorem writeAll0_none (f : Nat → WriteResult) (cs : List Chunk) :
       · subst hk; exact write0_none hw c'
       · exact hc k (by omega) h2 c'
 
+theorem writeAll_calls_le (f : Nat → WriteResult) (ps : List (List Char)) :
+    ∀ s : W, s.calls ≤ (writeAll f s ps).1.calls := by
+  induction ps with
+  | nil => intro s; simp [writeAll]
+  | cons p ps ih =>
+    intro s
+    have h0 := write_calls f s p
+    unfold writeAll
+    split
+    · rename_i h; rw [h] at h0; simp at h0 ⊢; omega
+    · rename_i s' _ h; rw [h] at h0; have := ih s'; simp at h0; omega
+
+theorem writeAll_none (f : Nat → WriteResult) (ps : List (List Char)) :
+    ∀ (s s' : W), writeAll f s ps = (s', none) → Clean f s.calls s'.calls := by
+  induction ps with
+  | nil =>
+    intro s s' h
+    simp [writeAll] at h
+    subst h
+    intro k h1 h2; omega
+  | cons p ps ih =>
+    intro s s' h
+    have h0 := write_calls f s p
+    unfold writeAll at h
+    split at h
+    · simp at h
+    · rename_i s1 _ hw
+      rw [hw] at h0
+      simp at h0
+      have hc := ih s1 s' h
+      intro k h1 h2 c'
+      by_cases hk : k = s.calls
+      · subst hk; exact write_none hw c'
+      · exact hc k (by omega) h2 c'
+
+/-- a failed header/trailer sequence failed at one of its own calls -/
+theorem writeAll_some (f : Nat → WriteResult) (ps : List (List Char)) :
+    ∀ (s s' : W) (e : Err), writeAll f s ps = (s', some e) →
+      ∃ k, s.calls ≤ k ∧ k < s.calls + ps.length ∧ ∃ c, f k = .err c := by
+  induction ps with
+  | nil => intro s s' e h; simp [writeAll] at h
+  | cons p ps ih =>
+    intro s s' e h
+    have h0 := write_calls f s p
+    unfold writeAll at h
+    split at h
+    · rename_i hw
+      exact ⟨s.calls, Nat.le_refl _, by simp, write_some hw⟩
+    · rename_i s1 _ hw
+      rw [hw] at h0
+      simp at h0
+      obtain ⟨k, h1, h2, hc⟩ := ih s1 s' e h
+      exact ⟨k, by omega, by simp; omega, hc⟩
+
 theorem lib_clean (n : Nat) (w : Nat → Nat → Int) (f : Nat → WriteResult)
     (h : (lib n w f).err = none) : Clean f 0 (lib n w f).calls := by
   rw [lib_unfold] at h ⊢
-  rcases h1 : write f ⟨0, []⟩ hdr1 with ⟨s1, n1, _ | e1⟩
+  rcases h3 : writeAll f ⟨0, []⟩ (hdrWrites n) with ⟨s3, _ | e3⟩
   rotate_left
-  · simp [h1, Res.of] at h
-  have c1 := write_calls f ⟨0, []⟩ hdr1
-  rw [h1] at c1 h
-  dsimp only at c1 h ⊢
-  rcases h2 : write f s1 (hdr2 n) with ⟨s2, n2, _ | e2⟩
-  rotate_left
-  · simp [h2, Res.of] at h
-  have c2 := write_calls f s1 (hdr2 n)
-  rw [h2] at c2 h
-  dsimp only at c2 h ⊢
-  rcases h3 : write f s2 hdr3 with ⟨s3, n3, _ | e3⟩
-  rotate_left
-  · simp [h3, Res.of] at h
-  have c3 := write_calls f s2 hdr3
-  rw [h3] at c3 h
+  · rw [h3] at h; simp [Res.of] at h
+  have c3 := writeAll_none f _ _ _ h3
+  rw [h3] at h
   dsimp only at c3 h ⊢
   rcases h4 : writeAll0 f s3 (body n w) with ⟨s4, _ | e4⟩
   rotate_left
-  · simp [h4, Res.of] at h
+  · rw [h4] at h; simp [Res.of] at h
   have c4 := writeAll0_none f _ _ _ h4
   have c4' := writeAll0_calls_le f (body n w) s3
   rw [h4] at c4' h
   dsimp only at c4' h ⊢
-  rcases h5 : write f s4 trailer with ⟨s5, n5, _ | e5⟩
+  rcases h5 : writeAll f s4 trailerWrites with ⟨s5, _ | e5⟩
   rotate_left
-  · simp [h5, Res.of] at h
-  have c5 := write_calls f s4 trailer
-  rw [h5] at c5
-  dsimp only [Res.of] at c5 ⊢
+  · rw [h5] at h; simp [Res.of] at h
+  have c5 := writeAll_none f _ _ _ h5
+  dsimp only [Res.of]
   intro k _ hk c
-  by_cases k0 : k = 0
-  · subst k0; exact write_none h1 c
-  by_cases k1 : k = 1
-  · subst k1; have := write_none h2 c; rwa [c1] at this
-  by_cases k2 : k = 2
-  · subst k2; have := write_none h3 c; rw [c2, c1] at this; exact this
-  by_cases k4 : k = s4.calls
-  · subst k4; exact write_none h5 c
-  · exact c4 k (by omega) (by omega) c
+  by_cases k3 : k < s3.calls
+  · exact c3 k (Nat.zero_le _) k3 c
+  by_cases k4 : k < s4.calls
+  · exact c4 k (by omega) k4 c
+  · exact c5 k (by omega) hk c
 
 /-! ### `format` on the triangular table -/
 
@@ -450,30 +473,19 @@ theorem allPairs_eq (n : Nat) :
   rfl
 
 theorem lib_wcalls (n : Nat) (w : Nat → Nat → Int) (f : Nat → WriteResult) :
-    ((lib n w f).wcalls = [] ∧ ∃ k, k < 3 ∧ ∃ c, f k = .err c) ∨ (lib n w f).wcalls = allPairs n := by
+    ((lib n w f).wcalls = [] ∧ ∃ k, k < (hdrWrites n).length ∧ ∃ c, f k = .err c) ∨
+      (lib n w f).wcalls = allPairs n := by
   rw [lib_unfold]
-  rcases h1 : write f ⟨0, []⟩ hdr1 with ⟨s1, n1, _ | e1⟩
+  rcases h3 : writeAll f ⟨0, []⟩ (hdrWrites n) with ⟨s3, _ | e3⟩
   rotate_left
-  · left; exact ⟨rfl, 0, by omega, write_some h1⟩
-  have c1 := write_calls f ⟨0, []⟩ hdr1
-  rw [h1] at c1
-  dsimp only at c1 ⊢
-  rcases h2 : write f s1 (hdr2 n) with ⟨s2, n2, _ | e2⟩
-  rotate_left
-  · left; refine ⟨rfl, 1, by omega, ?_⟩
-    have := write_some h2; rwa [c1] at this
-  have c2 := write_calls f s1 (hdr2 n)
-  rw [h2] at c2
-  dsimp only at c2 ⊢
-  rcases h3 : write f s2 hdr3 with ⟨s3, n3, _ | e3⟩
-  rotate_left
-  · left; refine ⟨rfl, 2, by omega, ?_⟩
-    have := write_some h3; rw [c2, c1] at this; exact this
+  · left
+    obtain ⟨k, _, h2, hc⟩ := writeAll_some f _ _ _ _ h3
+    exact ⟨rfl, k, by simpa using h2, hc⟩
   dsimp only
   right
   rcases writeAll0 f s3 (body n w) with ⟨s4, _ | e4⟩
   · dsimp only
-    rcases write f s4 trailer with ⟨s5, n5, _ | e5⟩ <;> rfl
+    rcases writeAll f s4 trailerWrites with ⟨s5, _ | e5⟩ <;> rfl
   · rfl
 
 theorem rowCells_congr (w w' : Nat → Nat → Int) (i : Nat) (h : ∀ j, j < i → w i j = w' i j) :
@@ -525,6 +537,20 @@ theorem writeAll0_none_ok {f : Nat → WriteResult} (hs : ∀ k c, f k ≠ .shor
           · simp at hw
           · simp at hw; rw [← hw]; exact this
       rw [ih s1 s' h, hs1]
+      simp
+      omega
+
+theorem writeAll_none_ok {f : Nat → WriteResult} (hs : ∀ k c, f k ≠ .shortNil c) (ps : List (List Char)) :
+    ∀ (s s' : W), writeAll f s ps = (s', none) → s' = ⟨s.calls + ps.length, s.out ++ ps.flatten⟩ := by
+  induction ps with
+  | nil => intro s s' h; simp [writeAll] at h; subst h; simp
+  | cons p ps ih =>
+    intro s s' h
+    unfold writeAll at h
+    split at h
+    · simp at h
+    · rename_i s1 _ hw
+      rw [ih s1 s' h, write_none_ok hs hw]
       simp
       omega
 
